@@ -164,6 +164,13 @@ class _Canon(ast.NodeTransformer):
         if node.orelse and isinstance(node.test, ast.UnaryOp) and isinstance(node.test.op, ast.Not):
             node.test = node.test.operand
             node.body, node.orelse = node.orelse, node.body
+        # if not a or not b: A else: B   ->   if a and b: B else: A      (likewise `not a and not b`)
+        t = node.test
+        if node.orelse and isinstance(t, ast.BoolOp) and all(isinstance(v, ast.UnaryOp) and isinstance(v.op, ast.Not)
+                                                             for v in t.values):
+            node.test = ast.copy_location(ast.BoolOp(op=ast.And() if isinstance(t.op, ast.Or) else ast.Or(),
+                                                     values=[v.operand for v in t.values]), t)
+            node.body, node.orelse = node.orelse, node.body
         # if x is None: A else: B   ->   if x is not None: B else: A
         t = node.test
         if node.orelse and isinstance(t, ast.Compare) and len(t.ops) == 1 and isinstance(t.ops[0], ast.Is) and \
@@ -290,6 +297,12 @@ class _Canon(ast.NodeTransformer):
             gen = ast.GeneratorExp(elt=elt, generators=[ast.comprehension(
                 target=ast.Name(id=var, ctx=ast.Store()), iter=node.args[1], ifs=[], is_async=0)])
             return ast.fix_missing_locations(ast.copy_location(gen, node))
+        if isinstance(node.func, ast.Name) and node.func.id == "dict" and len(node.args) == 1 and \
+                not node.keywords and isinstance(node.args[0], (ast.GeneratorExp, ast.ListComp)) and \
+                isinstance(node.args[0].elt, ast.Tuple) and len(node.args[0].elt.elts) == 2:
+            g = node.args[0]
+            return ast.copy_location(ast.DictComp(key=g.elt.elts[0], value=g.elt.elts[1], generators=g.generators),
+                                     node)
         if isinstance(node.func, ast.Name) and node.func.id == "list" and len(node.args) == 1 and \
                 not node.keywords and isinstance(node.args[0], ast.GeneratorExp):
             g = node.args[0]
@@ -387,6 +400,12 @@ class _Canon(ast.NodeTransformer):
         self.generic_visit(node)
         if isinstance(node.test, ast.UnaryOp) and isinstance(node.test.op, ast.Not):
             node.test = node.test.operand
+            node.body, node.orelse = node.orelse, node.body
+        t = node.test
+        if isinstance(t, ast.BoolOp) and all(isinstance(v, ast.UnaryOp) and isinstance(v.op, ast.Not)
+                                             for v in t.values):
+            node.test = ast.copy_location(ast.BoolOp(op=ast.And() if isinstance(t.op, ast.Or) else ast.Or(),
+                                                     values=[v.operand for v in t.values]), t)
             node.body, node.orelse = node.orelse, node.body
         return node
 
@@ -608,7 +627,8 @@ def _forward_stores(fn):
 
     def impure_calls(node):
         return [n for n in ast.walk(node) if isinstance(n, ast.Call) and
-                not _pure_expr(ast.Call(func=n.func, args=[], keywords=[]))]
+                not _pure_expr(ast.Call(func=n.func, args=[], keywords=[])) and
+                not (isinstance(n.func, ast.Name) and n.func.id in EFFECT_FREE_CONSTRUCTORS)]
 
     # eq maps a local name to the field entry it equals, and "#<field path>" to the expression over locals that was
     # just stored into that field
@@ -636,11 +656,8 @@ def _forward_stores(fn):
                 return n
 
             def visit_Lambda(self, n):
-                return n
-
-            def visit_ListComp(self, n):
-                return n
-            visit_GeneratorExp = visit_SetComp = visit_DictComp = visit_ListComp
+                return n                # evaluated later (list / dict / set comprehensions are evaluated in place)
+            visit_GeneratorExp = visit_Lambda
         return R().visit(node)
 
     def kill_name(eq, name):
@@ -1298,6 +1315,82 @@ def _append_tree(stmts, name):
     return None
 
 
+EFFECT_FREE_CONSTRUCTORS = {"defaultdict", "dict", "list", "set", "tuple", "partial", "OrderedDict", "Counter"}
+
+
+def _effect_free(e):
+    """evaluating e changes nothing and draws nothing (it may build new containers)"""
+    class Hide(ast.NodeTransformer):
+        def visit_Call(self, n):
+            self.generic_visit(n)
+            if isinstance(n.func, ast.Name) and n.func.id in EFFECT_FREE_CONSTRUCTORS and not n.keywords:
+                return ast.Tuple(elts=[a for a in n.args if not isinstance(a, ast.Starred)], ctx=ast.Load())
+            return n
+    import copy as _copy
+    return _pure_expr(Hide().visit(_copy.deepcopy(e)))
+
+
+def _empty_dict_assign(st):
+    return isinstance(st, ast.Assign) and len(st.targets) == 1 and isinstance(st.targets[0], ast.Name) and \
+        (isinstance(st.value, ast.Dict) and not st.value.keys or
+         isinstance(st.value, ast.Call) and ast.unparse(st.value) == "dict()")
+
+
+def _dict_loops_to_comprehensions(block):
+    """`A = {}` [`B = {}` ...] directly followed by `for T in IT: A[K] = Va [; B[K] = Vb ...]` (K a name bound by the
+    loop, the values read none of the dictionaries, at most one value has an effect, IT is a plain reference or a
+    keys()/items()/range() call)   ->   `A = {K: Va for T in IT}` [`B = {K: Vb for T in IT}` ...]"""
+    import copy as _copy
+    out = []
+    i = 0
+    while i < len(block):
+        j = i
+        names = []
+        while j < len(block) and _empty_dict_assign(block[j]):
+            names.append(block[j].targets[0].id)
+            j += 1
+        loop = block[j] if j < len(block) else None
+        ok = bool(names) and isinstance(loop, ast.For) and not loop.orelse and len(set(names)) == len(names) and \
+            len(loop.body) == len(names)
+        if ok:
+            bound = {n.id for n in ast.walk(loop.target) if isinstance(n, ast.Name)}
+            it = loop.iter
+            plain = _simple_ref(it) and not isinstance(it, ast.Constant) or (
+                isinstance(it, ast.Call) and not it.keywords and (
+                    isinstance(it.func, ast.Attribute) and it.func.attr in ("keys", "items", "values") and
+                    not it.args and _simple_ref(it.func.value) or
+                    isinstance(it.func, ast.Name) and it.func.id in ("range", "enumerate", "sorted", "list") and
+                    all(_pure_expr(a) for a in it.args)))
+            stores = {}
+            for st in loop.body:
+                if not (isinstance(st, ast.Assign) and len(st.targets) == 1 and
+                        isinstance(st.targets[0], ast.Subscript) and isinstance(st.targets[0].value, ast.Name) and
+                        st.targets[0].value.id in names and isinstance(st.targets[0].slice, ast.Name) and
+                        st.targets[0].slice.id in bound and st.targets[0].value.id not in stores):
+                    ok = False
+                    break
+                stores[st.targets[0].value.id] = st
+            ok = ok and plain and set(stores) == set(names)
+            if ok:
+                vals = [st.value for st in loop.body]
+                reads = {n.id for v in vals + [it] for n in ast.walk(v) if isinstance(n, ast.Name)}
+                impure = sum(1 for v in vals if not _effect_free(v))
+                ok = not (reads & set(names)) and (len(names) == 1 or impure <= 1)
+        if ok:
+            for nm in names:
+                st = stores[nm]
+                comp = ast.DictComp(key=ast.Name(id=st.targets[0].slice.id, ctx=ast.Load()), value=st.value,
+                                    generators=[ast.comprehension(target=_copy.deepcopy(loop.target),
+                                                                  iter=_copy.deepcopy(loop.iter), ifs=[], is_async=0)])
+                new = ast.Assign(targets=[ast.Name(id=nm, ctx=ast.Store())], value=comp, lineno=loop.lineno)
+                out.append(ast.fix_missing_locations(ast.copy_location(new, loop)))
+            i = j + 1
+            continue
+        out.append(block[i])
+        i += 1
+    return out
+
+
 def _loops_to_comprehensions(block):
     """`L = []` directly followed by `for T in IT: L.append(E)` (E possibly chosen by if/else)  ->  `L = [E for T in IT]`"""
     for st in block:
@@ -1308,6 +1401,7 @@ def _loops_to_comprehensions(block):
         if isinstance(st, ast.Try):
             for h in st.handlers:
                 h.body = _loops_to_comprehensions(h.body)
+    block = _dict_loops_to_comprehensions(block)
     out = []
     i = 0
     while i < len(block):
